@@ -66,17 +66,4 @@ Proof.
     unfold set_fin_flag; repeat (destr_inner; cbn [fst snd]); reflexivity.
 Qed.
 
-(* sender: no fault, no abandon before a limit *)
-Lemma s_no_fault_before_limit now (s : sstate) :
-  snd (c_limit_reached now (t_inact (s_timer s))) = false ->
-  (forall c, snd (c_timeout_occurred now c) = true -> snd (c_limit_reached now c) = false ->
-             c_count (fst (c_timeout_occurred now c)) =? c_max (fst (c_timeout_occurred now c)) = false) ->
-  snd (c_limit_reached now (t_ack (s_timer s))) = false ->
-  s_out (s_handle_timeout cksum now s) = s_out s.
-Proof.
-  intros Hi _ Ha. unfold s_handle_timeout, c_limit_reached, c_timeout_occurred in *. cbn [fst snd] in *.
-  destruct (s_phase s); try reflexivity; rewrite Hi; cbn [t_ack s_timer supd_inact set_s_timer set_inact];
-    rewrite Ha; unfold set_eof_flag; repeat (destr_inner; cbn [fst snd]); reflexivity.
-Qed.
-
 End FaultP.
